@@ -213,7 +213,11 @@ func render(w source, importsWritten, optionsWritten []string) string {
 			seenOpts = true
 			b.SLead("import_lead")
 		}
-		b.T("import", `"`+imp+`"`, ";")
+		if imp == "google/protobuf/duration.proto" && w["import_modifier"] != "" && w["import_modifier"] != "plain" {
+			b.T("import", w["import_modifier"], `"`+imp+`"`, ";")
+		} else {
+			b.T("import", `"`+imp+`"`, ";")
+		}
 		if first {
 			b.S("import_trail")
 		}
